@@ -17,8 +17,7 @@
   False of the code today, with kernel-checked counterexamples that the harness replays on the real
   code as known findings: `a == b → hash(a) == hash(b)` (`eq_hash_statement_false`, six
   `eq_hash_counterexample_*`), hash of a deep / unpickled copy with a re-ordered set
-  (`deepcopy_hash_counterexample`, `pickle_hash_counterexample`), `_none_fields` lost by pickle
-  (`pickle_counterexample_nones`).  `eq_hash_partial` proves the implication on the region
+  (`deepcopy_hash_counterexample`, `pickle_hash_counterexample`).  `eq_hash_partial` proves the implication on the region
   that excludes exactly those spellings.
 -/
 import TypedpyModel.Lemmas.EqLemmas
@@ -275,15 +274,15 @@ theorem unpickled_frame (tbl : List MethodRec) (O : Oracles) (c : ClassOpts)
   · have := congrArg Prod.fst h.1; simpa [runI] using this
   · have := congrArg Prod.snd h.1; simpa using this
 
-/-- the pickle round trip of a constructed instance (`_instantiated`, empty `_none_fields`) whose
+/-- the pickle round trip of a constructed instance (`_instantiated`) whose
     rebuilt sets come out in the iteration order they had gives back the very same state: fields,
-    additional properties and the bookkeeping entries (since 4ede29b) -/
-theorem pickle_state (S : SetOrder) (x : Inst) (hi : x.instantiated = true) (hn : x.nones = [])
+    additional properties, `_none_fields` and the bookkeeping entries (since 4ede29b, 7925862) -/
+theorem pickle_state (S : SetOrder) (x : Inst) (hi : x.instantiated = true)
     (hfix : rebuildAttrs S x.attrs = x.attrs) : pickleI S x = x := by
   cases x with
   | mk cls attrs inst nones undef =>
-    simp only at hi hn hfix
-    simp only [pickleI, hfix, hi, hn]
+    simp only at hi hfix
+    simp only [pickleI, hfix, hi]
 
 /-- **C11 (unpickled copy independent, behaves like a fresh equal instance)**: whatever history is
     applied to the unpickled copy, the original is unchanged, and the copy goes through exactly the
@@ -292,13 +291,13 @@ theorem pickle_state (S : SetOrder) (x : Inst) (hi : x.instantiated = true) (hn 
     `S = id`, see `rebuildAttrs_id`; for other orders `unpickled_frame` and `pickle_eq` apply.) -/
 theorem unpickled_independent (tbl : List MethodRec) (O : Oracles) (c : ClassOpts)
     (fields : List (String × FieldDecl)) (S : SetOrder) (x : Inst) (ops : List Op)
-    (hi : x.instantiated = true) (hn : x.nones = []) (hfix : rebuildAttrs S x.attrs = x.attrs) :
+    (hi : x.instantiated = true) (hfix : rebuildAttrs S x.attrs = x.attrs) :
     let r := run2 tbl O c fields (x, pickleI S x) (ops.map (fun op => (Side.copy, op)))
     r.1.1 = x
     ∧ r.1.2 = (runI tbl O c fields x ops).1
     ∧ sideOf .copy r.2 = (runI tbl O c fields x ops).2 := by
   have h := unpickled_frame tbl O c fields S x ops
-  rw [pickle_state S x hi hn hfix] at h ⊢
+  rw [pickle_state S x hi hfix] at h ⊢
   exact h
 
 /-! ### the unpickled copy is `_instantiated` again (fixed by 4ede29b) -/
@@ -462,20 +461,20 @@ theorem deepcopy_hash_partial (R : Render) (c : ClassOpts) (x : Inst)
   exact ⟨h, by rw [h]⟩
 
 /-- **C11 (pickle)**: the unpickled copy `==` the original — additional properties at every level
-    included — for every iteration order the rebuilt sets come out in.  (`_none_fields` is not part
-    of the pickled state: the copy's is empty, `hn`.) -/
-theorem pickle_eq (S : SetOrder) (hS : MemPreserving S) (d : EqCtx) (x : Inst) (hn : x.nones = []) :
+    and the explicitly-`None` field names (`_none_fields`, since 7925862) included — for every
+    iteration order the rebuilt sets come out in; no hypothesis on the instance -/
+theorem pickle_eq (S : SetOrder) (hS : MemPreserving S) (d : EqCtx) (x : Inst) :
     instEq d x (pickleI S x) = true := by
   unfold pickleI
   rw [rebuildAttrs_eq_map]
-  exact instEq_map d (rebuildV S) x true [] (fun p _ => pyEq_rebuildV S hS p.2) (by rw [hn]; rfl)
+  exact instEq_map d (rebuildV S) x true x.nones (fun p _ => pyEq_rebuildV S hS p.2) (namesEq_refl _)
 
 /-- … and prints / hashes like it when the rebuilt sets keep their iteration order (otherwise not:
     `deepcopy_hash_counterexample` applies to pickle verbatim, finding `pickle-hash-differs:set-order`) -/
-theorem pickle_hash_partial (R : Render) (x : Inst) (hn : x.nones = []) :
+theorem pickle_hash_partial (R : Render) (x : Inst) :
     hashKey R (pickleI id x) = hashKey R x := by
   unfold pickleI hashKey
-  simp only [rebuildAttrs_id, hn]
+  simp only [rebuildAttrs_id]
 
 /-- finding `pickle-hash-differs:set-order`, kernel-checked for pickle itself -/
 theorem pickle_hash_counterexample :
@@ -507,41 +506,63 @@ theorem undef_unset_vs_none_example :
         { cls := "C", attrs := [("a", .int 1), ("b", .int 2)], undef := true } = true := by
   decide
 
-/-- on such a class `x.f = None` for a non-required field of a mutable instance is never stored:
-    the name is recorded in `_none_fields` and `__dict__` is left as it is -/
+/-- on such a class `x.f = None` for a non-required (not immutable) field of a mutable instance
+    is never stored: the name is recorded in `_none_fields` and whatever `__dict__` held for it is
+    removed (since ed6dbae), so the field reads `None` afterwards -/
 theorem setattr_none_recorded (tbl : List MethodRec) (O : Oracles) (c : ClassOpts)
     (fields : List (String × FieldDecl)) (x : Inst) (f : String) (fd : FieldDecl)
     (hu : x.undef = true) (hm : c.immutable = false) (hf : lookup f fields = some fd)
-    (hr : c.required.contains f = false) :
-    stepI tbl O c fields x (.setattr f .none) = ({ x with nones := addName f x.nones }, .ok) := by
-  simp only [stepI, setattrUndef, hu, hm, hf, hr, PyVal.isNone, if_true, Bool.false_and,
+    (hr : c.required.contains f = false) (hi : c.immFields.contains f = false) :
+    stepI tbl O c fields x (.setattr f .none)
+      = ({ x with nones := addName f x.nones, attrs := assocDel f x.attrs }, .ok) := by
+  simp only [stepI, setattrUndef, hu, hm, hf, hr, hi, PyVal.isNone, if_true, Bool.false_and,
     Bool.false_eq_true, if_false, Option.isSome, Bool.not_true, Bool.not_false, Bool.and_self,
     Bool.true_and]
 
-/-- finding `pickle-not-eq:none-fields-lost`: `_none_fields` is not part of the pickled state, so
-    the unpickled copy of `C(a=1, b=None)` is `C(a=1)` — `!=` in both directions (this is exactly
-    the hypothesis `x.nones = []` of `pickle_eq`) -/
-theorem pickle_counterexample_nones :
-    instEq exU exNone (pickleI id exNone) = false ∧ instEq exU (pickleI id exNone) exNone = false
-    ∧ instEq exU (pickleI id exNone) exUnset = true
+/-- former finding `pickle-not-eq:none-fields-lost` (fixed by 7925862): the unpickled copy of
+    `C(a=1, b=None)` keeps `b` in `_none_fields`: it `==` the original in both directions, is still
+    `!=` `C(a=1)`, and prints alike; deepcopy and copy likewise -/
+theorem pickle_keeps_nones_example :
+    instEq exU exNone (pickleI id exNone) = true ∧ instEq exU (pickleI id exNone) exNone = true
+    ∧ instEq exU (pickleI id exNone) exUnset = false
+    ∧ (hashKey exR (pickleI id exNone) == hashKey exR exNone) = true
     ∧ instEq exU exNone (deepcopyI exUC id exNone) = true ∧ instEq exU exNone (copyI exNone) = true := by
   decide
 
-/-- finding `eq-vs-readback:none-recorded-over-stored-value`: `x = C(a=1, b=5); x.b = None` only
-    records `b` in `_none_fields`; `__dict__` keeps 5.  Every name then reads back the same as on
-    `C(a=1, b=5)`, yet the two are `!=`: without its `_none_fields` conjunct `instEq_fieldwise` is
-    false of the code -/
-theorem stale_none_counterexample :
+/-- former finding `eq-vs-readback:none-recorded-over-stored-value` (fixed by ed6dbae):
+    `x = C(a=1, b=5); x.b = None` records `b` in `_none_fields` *and* removes the 5 from `__dict__`:
+    the result is `==` `C(a=1, b=None)`, reads `b` as `None`, and is told apart from `C(a=1, b=5)`
+    by `==` and by the values read back alike -/
+theorem none_replaces_value_example :
     (stepI Generated.wrappers exO exUC exUFields
         { cls := "C", attrs := [("a", .int 1), ("b", .int 5)], undef := true } (.setattr "b" .none)).1.nones = ["b"]
-    ∧ (stepI Generated.wrappers exO exUC exUFields
+    ∧ instEq exU (stepI Generated.wrappers exO exUC exUFields
+        { cls := "C", attrs := [("a", .int 1), ("b", .int 5)], undef := true } (.setattr "b" .none)).1 exNone = true
+    ∧ PyVal.pyEq (getA exU (stepI Generated.wrappers exO exUC exUFields
+        { cls := "C", attrs := [("a", .int 1), ("b", .int 5)], undef := true } (.setattr "b" .none)).1 "b") .none = true
+    ∧ instEq exU (stepI Generated.wrappers exO exUC exUFields
+        { cls := "C", attrs := [("a", .int 1), ("b", .int 5)], undef := true } (.setattr "b" .none)).1
+        { cls := "C", attrs := [("a", .int 1), ("b", .int 5)], undef := true } = false := by
+  decide
+
+/-- finding `eq-vs-readback:none-recorded-over-immutable-field` (what ed6dbae left): on an
+    *immutable field* that holds a value, `x.b = None` is neither refused nor applied — the name is
+    recorded in `_none_fields`, `__dict__` keeps the value.  Every name then reads back the same as
+    before, yet the instance is `!=` what it was: without its `_none_fields` conjunct
+    `instEq_fieldwise` is false of the code on such fields -/
+theorem none_over_immutable_field_counterexample :
+    (stepI Generated.wrappers exO { exUC with immFields := ["b"] } exUFields
+        { cls := "C", attrs := [("a", .int 1), ("b", .int 5)], undef := true } (.setattr "b" .none)).2 = .ok
+    ∧ (stepI Generated.wrappers exO { exUC with immFields := ["b"] } exUFields
+        { cls := "C", attrs := [("a", .int 1), ("b", .int 5)], undef := true } (.setattr "b" .none)).1.nones = ["b"]
+    ∧ (stepI Generated.wrappers exO { exUC with immFields := ["b"] } exUFields
         { cls := "C", attrs := [("a", .int 1), ("b", .int 5)], undef := true } (.setattr "b" .none)).1.attrs
         = [("a", .int 1), ("b", .int 5)]
     ∧ instEq exU { cls := "C", attrs := [("a", .int 1), ("b", .int 5)], nones := ["b"], undef := true }
                  { cls := "C", attrs := [("a", .int 1), ("b", .int 5)], undef := true } = false
     ∧ ∀ k, getA exU { cls := "C", attrs := [("a", .int 1), ("b", .int 5)], nones := ["b"], undef := true } k
          = getA exU { cls := "C", attrs := [("a", .int 1), ("b", .int 5)], undef := true } k := by
-  refine ⟨by decide, by rfl, by decide, fun k => ?_⟩
+  refine ⟨by decide, by decide, by rfl, by decide, fun k => ?_⟩
   by_cases ha : k = "a"
   · subst ha; rfl
   · by_cases hb : k = "b"
